@@ -33,6 +33,7 @@ void harness(void)
     uint32_t z = CAT(VW_TY, Size)(&V_O, &V_NODE, H_WIDTH);
     __CPROVER_assert(z == (has ? w : 0u), "Size: the width of the entry; 0 for a referenced entry without storage");
     /* ---- Read ---- */
+#ifndef VW_SIZE_ONLY
     if (has) {
         __CPROVER_assume(H_SZ >= 1 && H_SZ <= 8);
         uint8_t *buf = malloc(H_SZ); __CPROVER_assume(buf != 0);
@@ -51,6 +52,9 @@ void harness(void)
         if (H_SZ < w) { __CPROVER_assert(0, "REACH:b"); }
 #endif
     }
+#else
+    __CPROVER_assert(0, "REACH:a"); __CPROVER_assert(0, "REACH:b");
+#endif
     /* ---- Init ---- */
 #ifdef VW_INIT_OK
     CO_ERR i = CAT(VW_TY, Init)(&V_O, &V_NODE);
